@@ -3,6 +3,7 @@ package main
 // LIT-TYPE / QUOTE-DECODE (C06, C08), NODE-SOURCES (C06), DF-FLOW (C11), LOOP / REC (C01).
 
 import (
+	"go/token"
 	"fmt"
 	"go/types"
 	"sort"
@@ -141,6 +142,10 @@ func ruleLITTYPE(c *Ctx, r *Report) {
 				r.bad(rule, key, pos, "a float literal is produced without first trying to type the word as an int")
 			case len(ops) == 1 && ops[0] == "expr.Wild" && !(contains(seq, "int") && contains(seq, "float")):
 				r.bad(rule, key, pos, "a wildcard leaf is produced without first trying numeric typing")
+			case numericReadingIgnored(p.Atoms, argKey) != "":
+				r.bad(rule, key+"|ignored", pos, fmt.Sprintf("on this path %s, yet the leaf carries %s: a word that reads as a number is typed as something else, so it is quoted in SQL and compared as text", numericReadingIgnored(p.Atoms, argKey), argKey))
+			case !strings.Contains(argKey, "strconv.") && !(contains(seq, "int") && contains(seq, "float")):
+				r.bad(rule, key, pos, fmt.Sprintf("a bare word becomes a leaf with the text payload %s on a path where the int and float readings have not both been tried (tests on this path: %v): some numbers are typed as strings, so they are quoted in SQL and compared as text", argKey, seq))
 			default:
 				r.ok(rule, key, pos, "typing order respected")
 			}
@@ -638,7 +643,7 @@ func (c *Ctx) isCountingLoop(h *ssa.BasicBlock) bool {
 		if bi, ok := call.Call.Value.(*ssa.Builtin); ok && bi.Name() == "len" {
 			a := call.Call.Args[0]
 			if _, isStr := a.Type().Underlying().(*types.Basic); isStr || inv(a) {
-				if inv(a) {
+				if inv(a) || loopInvariantLoad(a, h) {
 					bound = nil
 				}
 			}
@@ -1192,17 +1197,16 @@ func ruleREC(c *Ctx, r *Report) {
 // NUM-BASE (C03/C06): numeric typing of a bare word is decimal.
 func ruleNUMBASE(c *Ctx, r *Report) {
 	const rule = "NUM-BASE"
-	r.doc(rule, "numeric typing in the token→literal function is decimal: strconv.Atoi, or ParseInt/ParseUint with constant base 10 (base 0 reads a leading 0 as octal and 0x/0b prefixes, so the number in the SQL differs from the digits in the query)")
+	r.doc(rule, "every number parse in the library (token→literal typing, reducers, decoder, range functions of the driver) is decimal and full width: strconv.Atoi, or ParseInt/ParseUint with constant base 10 and bit size 0/64, ParseFloat with bit size 64 (base 0 reads a leading 0 as octal and 0x/0b prefixes; a narrower width makes large integers fall through to the float or string reading, or rounds floats)")
 	pr := c.parserPreamble(r, rule)
 	if pr == nil || pr.TokToLit == nil {
 		return
 	}
 	n := 0
-	for _, f := range c.reachFrom([]*ssa.Function{pr.TokToLit}) {
-		_ = f
-	}
-	for fn := range c.reachFrom([]*ssa.Function{pr.TokToLit}) {
-		if !inLib(fn) || fnPkgPath(fn) == pkgExpr {
+	inTok := c.reachFrom([]*ssa.Function{pr.TokToLit})
+	all := c.reachFrom(append(c.rootsC01(), c.rootsC13()...))
+	for _, fn := range sortedFuncs(all) {
+		if !inLib(fn) {
 			continue
 		}
 		for _, b := range fn.Blocks {
@@ -1214,15 +1218,32 @@ func ruleNUMBASE(c *Ctx, r *Report) {
 				name := calleeFullName(call)
 				switch name {
 				case "strconv.Atoi":
-					n++
-					r.ok(rule, fnName(fn)+"|Atoi", c.instrPos(in), "decimal")
+					if inTok[fn] {
+						n++
+					}
+					r.ok(rule, fnName(fn)+"|Atoi", c.instrPos(in), "decimal, full width")
 				case "strconv.ParseInt", "strconv.ParseUint":
-					n++
-					base, isC := constIntVal(call.Call.Args[1])
+					if inTok[fn] {
+						n++
+					}
+					base, isC := constIntVal(c.resolve(call.Call.Args[1], nil))
 					if isC && base == 10 {
 						r.ok(rule, fnName(fn)+"|"+name, c.instrPos(in), "base 10")
 					} else {
 						r.badW(rule, fnName(fn)+"|"+name+"|base", c.instrPos(in), fmt.Sprintf("%s types integers with %s base %s: a zero-padded number is read as octal (and 0x/0b prefixes are accepted), so the rendered number is not the one written in the query", fnName(fn), name, c.key(call.Call.Args[1], nil)), "`a:010` renders `\"a\" = 8`")
+					}
+					bits, isC := constIntVal(c.resolve(call.Call.Args[2], nil))
+					if isC && (bits == 0 || bits == 64) {
+						r.ok(rule, fnName(fn)+"|"+name+"|width", c.instrPos(in), "full width")
+					} else {
+						r.badW(rule, fnName(fn)+"|"+name+"|width", c.instrPos(in), fmt.Sprintf("%s parses integers with bit size %s: an integer outside that width is not recognised as an integer any more (it is rejected, or falls through to the float or string reading and is rendered rounded or quoted)", fnName(fn), c.key(call.Call.Args[2], nil)), "`a:[9007199254740993 TO *]` renders `\"a\" >= 9007199254740992.00`")
+					}
+				case "strconv.ParseFloat":
+					bits, isC := constIntVal(c.resolve(call.Call.Args[1], nil))
+					if isC && bits == 64 {
+						r.ok(rule, fnName(fn)+"|"+name+"|width", c.instrPos(in), "float64")
+					} else {
+						r.badW(rule, fnName(fn)+"|"+name+"|width", c.instrPos(in), fmt.Sprintf("%s parses floats with bit size %s: the value is rounded to float32 precision, so the number in the tree and in the SQL is not the one written", fnName(fn), c.key(call.Call.Args[1], nil)), "`a:0.1` renders `\"a\" = 0.10000000149011612`")
 					}
 				}
 			}
@@ -1451,4 +1472,77 @@ func ruleTOKIMMUTABLE(c *Ctx, r *Report) {
 		}
 	}
 	r.ok(rule, "stores-examined", "-", fmt.Sprintf("%d stores to token fields in the parser packages", n))
+}
+
+// numericReadingIgnored: the path established that the word reads as an int (or, failing that, as a
+// finite float) but the leaf payload is not that reading's value. Returns a description, "" if fine.
+func numericReadingIgnored(atoms []Atom, argKey string) string {
+	intOK, intFail, floatOK, nonFinite := false, false, false, false
+	for _, a := range atoms {
+		switch {
+		case a.Kind == "nil" && strings.HasSuffix(a.Subj, "#1") && (strings.Contains(a.Subj, "strconv.Atoi(") || strings.Contains(a.Subj, "strconv.ParseInt(")):
+			if a.Pos {
+				intOK = true
+			} else {
+				intFail = true
+			}
+		case a.Kind == "nil" && a.Pos && strings.HasSuffix(a.Subj, "#1") && strings.Contains(a.Subj, "strconv.ParseFloat("):
+			floatOK = true
+		case a.Kind == "call" && a.Pos && (a.Subj == "math.IsNaN" || a.Subj == "math.IsInf"):
+			nonFinite = true
+		}
+	}
+	switch {
+	case intOK && !strings.Contains(argKey, "strconv.Atoi(") && !strings.Contains(argKey, "strconv.ParseInt("):
+		return "the integer reading of the word succeeded"
+	case intFail && floatOK && !nonFinite && !strings.Contains(argKey, "strconv.ParseFloat("):
+		return "the float reading of the word succeeded (and the value was not found to be NaN or infinite)"
+	}
+	return ""
+}
+
+// loopInvariantLoad: a is a load from a local variable (or a field of one) that does not escape and is
+// not stored to in any block the loop header dominates — the loop re-reads the same value every time.
+func loopInvariantLoad(a ssa.Value, h *ssa.BasicBlock) bool {
+	ld, ok := a.(*ssa.UnOp)
+	if !ok || ld.Op != token.MUL {
+		return false
+	}
+	var alloc *ssa.Alloc
+	switch x := ld.X.(type) {
+	case *ssa.Alloc:
+		alloc = x
+	case *ssa.FieldAddr:
+		alloc, _ = x.X.(*ssa.Alloc)
+	}
+	if alloc == nil || alloc.Referrers() == nil {
+		return false
+	}
+	storedInLoop := func(addr ssa.Value) (bad bool) {
+		for _, ref := range *addr.Referrers() {
+			switch y := ref.(type) {
+			case *ssa.Store:
+				if y.Val == addr {
+					return true // the address itself is stored somewhere: escapes
+				}
+				if h.Dominates(y.Block()) {
+					return true
+				}
+			case *ssa.UnOp, *ssa.DebugRef:
+			case *ssa.FieldAddr:
+			default:
+				return true // passed to a call, converted, …: may be written through
+			}
+		}
+		return false
+	}
+	if storedInLoop(alloc) {
+		return false
+	}
+	for _, ref := range *alloc.Referrers() {
+		if fa, ok := ref.(*ssa.FieldAddr); ok && fa.Referrers() != nil && storedInLoop(fa) {
+			return false
+		}
+	}
+	return true
 }
